@@ -189,7 +189,10 @@ func Run(s Scenario) (*Outcome, string) {
 		opts = append(opts, iscp.WithDownstreamDataIDs(pre))
 	}
 	ctx := context.Background()
-	down, err := conn.OpenDownstream(ctx, filters, opts...)
+	// the usual open helper: a context that only covers the open request and is released straight afterwards
+	octx, ocancel := context.WithTimeout(ctx, 30*time.Second)
+	down, err := conn.OpenDownstream(octx, filters, opts...)
+	ocancel()
 	if err != nil {
 		return nil, "open downstream: " + err.Error()
 	}
